@@ -197,6 +197,7 @@ def check(F, rep, tier):
         else: rep.ok("R06.5", "no default is substituted for an unset vars field in Var::resolve_value", nontrivial_key="nodefault")
     # each Var variant reads its own ZervVars field only (helper getters followed): a fallback to another field would make an unset variable contribute
     if rv is not None:
+        rv = mir.inlined(F, rv, depth=2, ok=lambda F_, c_, cp, g_: g_ is not None and g_.kind != "closure" and cp.startswith("crate::version::zerv::components::"))     # resolve_raw_value(..) style split is seen through
         def reads_of(g, depth=0):
             out = set()
             for bi in range(len(g.blocks)):
